@@ -301,17 +301,21 @@ func runBatch(cfg *config, b *built, outDir string) *batchResult {
 					return
 				}
 				tag := fmt.Sprintf("%d-g%d", w, gen)
-				args := []string{"batch",
+				wd := "15"
+				if cfg.tier == "thorough" {
+					wd = "40"
+				}
+				args := []string{"batch", "-watchdog", wd,
 					"-seed", fmt.Sprint(cfg.seed), "-worker", fmt.Sprint(w), "-tier", cfg.tier,
 					"-seconds", fmt.Sprintf("%.1f", left), "-first", fmt.Sprint(first),
 					"-out", outDir, "-sites", fmt.Sprint(b.nsites), "-tag", tag}
-				if myWatchdogs >= 2 {
+				if myWatchdogs >= 3 {
 					// the library blocks in ways the scheduler cannot own (it did so
 					// twice already): the rest of this worker's runs are uncontrolled
 					args = append(args, "-free")
 				}
 				cmd := workerCmd(b, outDir, w, args...)
-				if myWatchdogs >= 2 {
+				if myWatchdogs >= 3 {
 					for i, e := range cmd.Env {
 						if strings.HasPrefix(e, "GOMAXPROCS=") {
 							cmd.Env[i] = "GOMAXPROCS=4"
@@ -367,7 +371,7 @@ func runBatch(cfg *config, b *built, outDir string) *batchResult {
 					ftag := tag + "-free"
 					fcmd := workerCmd(b, outDir, w, "batch",
 						"-seed", fmt.Sprint(cfg.seed), "-worker", fmt.Sprint(w), "-tier", cfg.tier,
-						"-seconds", "120", "-first", fmt.Sprint(wd.Run), "-maxruns", "1", "-free",
+						"-seconds", "300", "-watchdog", "120", "-first", fmt.Sprint(wd.Run), "-maxruns", "1", "-free",
 						"-out", outDir, "-sites", fmt.Sprint(b.nsites), "-tag", ftag)
 					// free mode may use real parallelism
 					for i, e := range fcmd.Env {
